@@ -10,7 +10,10 @@
     extractParagraphProperties → `paraProps` (heading level is computed but never used: left out)
     _elements               → `elems` (toString: first element child of office:body; the loops of toString, listToString and
                               tableToString skip text nodes)
-    toString                → `toString`
+    toString                → `toString` (`topStr`: the children with a tag in [draw:page, text:p, text:h, text:list,
+                              table:table] + CONTAINER_TAGS; lists first, then the containers, tables, paragraphs)
+    CONTAINER_TAGS          → `isContainer` (generated `moinContainer`): textToString of the element, in toString and in
+                              textToString (af61005)
     textToString            → `kidsStr` (the loop) / `nodeStr` (one child)
     paragraphToString       → `paraPost` applied to the inline_markup of the paragraph
     inline_markup           → `inlineMarkup` applied to the textToString of the node
@@ -316,12 +319,16 @@ def textS (attrs : Attrs) : Str :=
 
 def moinMethod (q : Str) : Option MName := moinElements.lookup q
 
+/-- `tag in CONTAINER_TAGS` (generated from the module): frames, text boxes, drawing shapes with text, sections,
+    numbered paragraphs, the indexes with their title and body -/
+def isContainer (q : Str) : Bool := moinContainer.contains q
+
 mutual
 /-- one iteration of textToString's loop -/
 def nodeStr (sty : Styles) (st : MSt) : Node → M (Str × MSt)
   | .text s => .ok (s, st)
   | .elem q attrs kids =>
-    if q = tTextBox || q = tFrame then kidsStr sty st kids
+    if isContainer q then kidsStr sty st kids
     else if q = tP || q = tH then
       match kidsStr sty st kids with
       | .error e => .error e
@@ -439,7 +446,7 @@ def topStr (sty : Styles) (st : MSt) : List Node → M (List Str × MSt)
   | .elem q attrs kids :: rest =>
     let r : Option (M (Str × MSt)) :=
       if q = tList then some (itemsStr sty ((sty.list.lookup (getAttr attrs kStyleName)).getD false) 0 { st with last := some q } kids)
-      else if q = tSection then some (kidsStr sty st kids)
+      else if isContainer q then some (kidsStr sty st kids)
       else if q = tTable then some (rowsStr sty { st with last := some q } kids)
       else if q = tPage || q = tP || q = tH then
         some (match kidsStr sty st kids with
